@@ -70,6 +70,15 @@ def runner(rep, tier, seed, replay):
         cases.append({"line": line, "expected": str(e["v"]) if e["exact"] else None, "toks": e["toks"], "mode": "int"})
         if e["exact"] and "/" not in e["toks"] and rr.random() < 0.3:
             cases.append({"line": render(e["toks"], rr, floaty=True), "expected": str(e["v"]), "toks": e["toks"], "mode": "float"})
+    # float-mode selection probes: with a `.` anywhere on the line - also when every decimal literal sits inside parentheses -
+    # the arithmetic is IEEE double; (a / b) * b with b a power of two is exact in binary floating point and equals a, while
+    # integer arithmetic would truncate the quotient first (the expected value needs no real arithmetic in the reference)
+    for a in (1, 3, 7, 9):
+        for b in (2, 4, 8):
+            for shape in ("%d / %d.0 * %d", "(%d / %d.0) * %d", "(%d / (%d.0)) * %d", "%d / (%d.0) * %d", "(%d) / ((%d.0)) * (%d)"):
+                cases.append({"line": shape % (a, b, b), "expected": str(a), "toks": (shape % (a, b, b)).split(), "mode": "float"})
+            cases.append({"line": "(%d.0) / %d * %d" % (a, b, b), "expected": str(a), "toks": [], "mode": "float"})
+            cases.append({"line": "(%d.5 + %d.5) * %d" % (a, b, b), "expected": str((a + b + 1) * b), "toks": [], "mode": "float"})
     for b in BOUNDARY:
         cases.append({"line": b, "expected": None, "toks": b.split(), "mode": "boundary"})
     strs = []
